@@ -1,5 +1,313 @@
-//! (stub)
+//! C13 — size limits and block-size choice over the whole 0..192 GiB range.
+//!
+//! E-LOCKSTEP from `hook(N)` (H1, validated against really feeding zeros):
+//! every block-size border 192*2^n + delta is reached *exactly* as zero prefix
+//! + crafted suffix, in every update form, with and without the size hint.
+
+use crate::c01::{case_json, form_name, run_case, start_generator, validate_hook, Chunk};
 use crate::common::*;
-use serde_json::Value;
-pub fn replay(_c: &Value) -> Result<(), String> { Err("not implemented".into()) }
-pub fn run(_ctx: &Ctx) -> Report { Report::new("model_checking") }
+use crate::corpus;
+use crate::gen_util::*;
+use refmodel::ctph::Ctph;
+use serde_json::{json, Value};
+use ssdeep::{Generator, GeneratorError};
+
+const MAX: u64 = 192u64 << 30;
+
+pub fn replay(c: &Value) -> Result<(), String> {
+    match c["kind"].as_str() {
+        Some("warn") => warn_case(c["size"].as_u64().ok_or("size")?),
+        Some("limit") => limit_case(c["size"].as_u64().ok_or("size")?),
+        Some("hook_vs_real") => hook_vs_real(c["n"].as_u64().ok_or("n")?),
+        _ => run_case(c),
+    }
+}
+
+/// `may_warn_about_small_input_size()` is true exactly for sizes below 4097.
+fn warn_case(size: u64) -> Result<(), String> {
+    let g = Generator::verif_new_with_prefix_zeroes(size);
+    let w = guarded(|| g.may_warn_about_small_input_size())?;
+    if w != (size < 4097) {
+        return Err(format!("may_warn at size {} = {}", size, w));
+    }
+    // a declared size decides, whatever was fed
+    let mut g2 = Generator::new();
+    if size <= MAX {
+        g2.set_fixed_input_size(size).map_err(|e| format!("{:?}", e))?;
+        if g2.may_warn_about_small_input_size() != (size < 4097) {
+            return Err(format!("may_warn with declared size {}", size));
+        }
+    }
+    Ok(())
+}
+
+/// exactly the limit is accepted, anything above is rejected at finalisation
+/// (and as a declaration) with the size-too-large errors.
+fn limit_case(size: u64) -> Result<(), String> {
+    let g = Generator::verif_new_with_prefix_zeroes(size);
+    let r = Ctph::new(size);
+    if let Some(m) = mismatch(&g, &r) {
+        return Err(m);
+    }
+    let fin = guarded(|| g.finalize())?;
+    if size <= MAX {
+        if fin.is_err() {
+            return Err(format!("size {} rejected: {:?}", size, fin));
+        }
+    } else if fin != Err(GeneratorError::InputSizeTooLarge) {
+        return Err(format!("size {} gives {:?}", size, fin));
+    }
+    let mut g2 = Generator::new();
+    let before = format!("{:?}", g2);
+    let res = guarded(|| g2.set_fixed_input_size(size))?;
+    if size <= MAX {
+        if res.is_err() {
+            return Err(format!("declaring {} refused: {:?}", size, res));
+        }
+    } else {
+        if res != Err(GeneratorError::FixedSizeTooLarge) {
+            return Err(format!("declaring {} gives {:?}", size, res));
+        }
+        if format!("{:?}", g2) != before {
+            return Err(format!("refused declaration {} changed the generator", size));
+        }
+        if let Ok(u) = usize::try_from(size) {
+            let res = guarded(|| g2.set_fixed_input_size_in_usize(u))?;
+            if res != Err(GeneratorError::FixedSizeTooLarge) || format!("{:?}", g2) != before {
+                return Err(format!("declaring {} (usize) gives {:?}", size, res));
+            }
+        }
+    }
+    Ok(())
+}
+
+/// hook(N) renders exactly like a generator that really consumed N zero bytes.
+fn hook_vs_real(n: u64) -> Result<(), String> {
+    let mut real = Generator::new();
+    let zeros = vec![0u8; 1 << 20];
+    let mut left = n;
+    while left > 0 {
+        let k = left.min(zeros.len() as u64) as usize;
+        real.update(&zeros[..k]);
+        left -= k as u64;
+    }
+    if format!("{:?}", real) != format!("{:?}", Generator::verif_new_with_prefix_zeroes(n)) {
+        return Err(format!("hook({}) differs from really feeding {} zero bytes", n, n));
+    }
+    Ok(())
+}
+
+/// One border case: zero prefix + suffix W_k^m (+ optional hint), one form.
+fn border_case(zp: u64, chunks: &[Chunk], hint: Option<u64>, acc: &mut Acc, sigp: &str) {
+    let mut g = start_generator(zp);
+    let mut r = Ctph::new(zp);
+    acc.evaluations += 1;
+    acc.nontrivial += 1;
+    if let Some(h) = hint {
+        match guarded(|| g.set_fixed_input_size(h)) {
+            Ok(Ok(())) => {}
+            Ok(Err(e)) => {
+                if h <= MAX {
+                    acc.violation(format!("{} hint", sigp), format!("hint {} refused: {:?}", h, e), case_json(zp, chunks, hint));
+                } else {
+                    acc.bump("hint_refused_too_large");
+                }
+                return;
+            }
+            Err(p) => {
+                acc.violation(format!("{} hint", sigp), format!("panic: {}", p), case_json(zp, chunks, hint));
+                return;
+            }
+        }
+    }
+    for (ci, c) in chunks.iter().enumerate() {
+        for i in 0..c.count {
+            let res = guarded(|| feed(&mut g, &c.word, c.form));
+            r.feed_all(&c.word);
+            let last = ci + 1 == chunks.len() && i + 1 == c.count;
+            let bad = match res {
+                Err(p) => Some(format!("panic in update: {}", p)),
+                Ok(()) => {
+                    if hint.is_none() || last {
+                        mismatch(&g, &r)
+                    } else {
+                        None
+                    }
+                }
+            };
+            if let Some(m) = bad {
+                acc.violation(sigp.to_string(), m, case_json(zp, chunks, hint));
+                return;
+            }
+        }
+    }
+    match r.digest() {
+        Ok(d) => {
+            acc.bump(&format!("log={:02}", d.log));
+            acc.max("max_block_index_in_result", d.log as u64);
+            if d.log == 30 && d.bh2_long.len() == 1 {
+                acc.count("results_using_last_piece_hash", 1);
+            }
+        }
+        Err(_) => acc.bump("too_large"),
+    }
+}
+
+pub fn run(ctx: &Ctx) -> Report {
+    let mut rep = Report::new("model_checking");
+    let thorough = ctx.tier == Tier::Thorough;
+    if let Err(e) = validate_hook(ctx) {
+        eprintln!("mc: hook validation failed (machinery error, not a verdict): {}", e);
+        std::process::exit(6);
+    }
+
+    // ---- hook(N) == really feeding N zeros, for N up to 2^20 (quick) / around borders up to n = 26 (thorough)
+    let mut hv: Vec<u64> = vec![];
+    for n in 0..=ctx.tier.pick(13u32, 24) {
+        for d in [-1i64, 0, 1] {
+            hv.push(((192u64 << n) as i64 + d) as u64);
+        }
+    }
+    hv.extend([1u64 << 20, (1 << 20) + 5, 4096, 4097]);
+    let acc = par_shards(hv.len(), |i, acc| {
+        acc.evaluations += 1;
+        acc.nontrivial += 1;
+        if let Err(e) = hook_vs_real(hv[i]) {
+            acc.violation(format!("hook_vs_real n={}", hv[i]), e, json!({"kind":"hook_vs_real","n":hv[i]}));
+        }
+        if i == 0 {
+            acc.sample(json!({"kind":"hook_vs_real","n":hv[i]}));
+        }
+    });
+    let hook_bad = acc.violation_count;
+    acc.into_report(&mut rep, "hook_equals_real_zero_feeding");
+    if hook_bad > 0 {
+        // a hook mismatch is a machinery error, unless the generator mishandles zero bytes,
+        // which C01 (real zeros) decides; here it is reported as is.
+        rep.set("note_hook", "hook(N) differs from really feeding N zero bytes: either the hook or the generator's zero-byte handling is wrong (C01 feeds real zeros)");
+    }
+
+    // ---- borders: 192*2^n + delta, suffix W_k^m
+    let ms: Vec<usize> = if thorough { vec![1, 2, 31, 32, 33, 63, 64, 65, 66] } else { vec![31, 32, 33, 64, 65] };
+    let acc = par_shards(31 * 5, |i, acc| {
+        let n = (i / 5) as i64;
+        let delta = (i % 5) as i64 - 2;
+        let total = ((192u64 << n) as i64 + delta) as u64;
+        let ks: Vec<i64> = (0..=30).collect();
+        for &k in &ks {
+            for &m in ms.iter() {
+                let sl = 7 * m as u64;
+                if total < sl {
+                    continue;
+                }
+                let zp = total - sl;
+                for (fi, &form) in FORMS3.iter().enumerate() {
+                    for hint in [None, Some(total)] {
+                        let chunks = vec![Chunk { word: corpus::W[k as usize].to_vec(), count: m, form }];
+                        let sigp = format!("border n={} delta={} W{}^{} {} hint={}", n, delta, k, m, form_name(form), hint.is_some());
+                        border_case(zp, &chunks, hint, acc, &sigp);
+                        if n == 30 && delta == 0 && k == 30 && m == 64 && fi == 0 && hint.is_none() {
+                            acc.sample(case_json(zp, &chunks, hint));
+                        }
+                    }
+                }
+            }
+        }
+    });
+    acc.into_report(&mut rep, "borders_zero_prefix_plus_trigger_suffix");
+
+    // ---- two-segment suffixes and mid-stream zero gaps: pieces first, then a long zero run
+    //      (in-place hook), then more pieces; the total lands on a border +- 1
+    let gap_ns: Vec<u32> = if thorough { (0..=30).collect() } else { vec![3, 6, 13, 21, 29, 30] };
+    let acc = par_shards(gap_ns.len() * 3, |i, acc| {
+        let n = gap_ns[i / 3];
+        let delta = (i % 3) as i64 - 1;
+        let total = ((192u64 << n) as i64 + delta) as u64;
+        let ks: Vec<usize> = {
+            let mut v = vec![0usize, (n as usize).saturating_sub(1), n as usize, (n as usize + 1).min(30), 30];
+            v.sort();
+            v.dedup();
+            v
+        };
+        for &ka in &ks {
+            for &kb in &ks {
+                for &(m1, m2) in &[(1usize, 64usize), (33, 33), (64, 1), (65, 65), (32, 31)] {
+                    let used = 7 * (m1 + m2) as u64 + 7;
+                    if total < used {
+                        continue;
+                    }
+                    let gap = total - used;
+                    for &form in &FORMS3 {
+                        for hint in [None, Some(total)] {
+                            acc.evaluations += 1;
+                            acc.nontrivial += 1;
+                            let case = json!({
+                                "zero_prefix": 0, "hint": hint,
+                                "chunks": [
+                                    {"word": hex(&corpus::W[ka]), "count": m1, "form": form_name(form)},
+                                    {"word": hex(&corpus::Z), "count": 1, "form": form_name(form)},
+                                    {"skip_zeros": gap},
+                                    {"word": hex(&corpus::W[kb]), "count": m2, "form": form_name(form)},
+                                ]});
+                            if let Err(e) = run_case(&case) {
+                                acc.violation(
+                                    format!("gap n={} delta={} W{}^{} zeros W{}^{} {} hint={}", n, delta, ka, m1, kb, m2, form_name(form), hint.is_some()),
+                                    e,
+                                    case.clone(),
+                                );
+                            }
+                            if n == 30 && delta == 0 && ka == 30 && kb == 30 && m1 == 1 && hint.is_none() && form == Form::Slice {
+                                acc.sample(case);
+                            }
+                        }
+                    }
+                }
+            }
+        }
+    });
+    acc.into_report(&mut rep, "pieces_then_zero_gap_then_pieces_total_on_border");
+
+    // ---- limits and the small-input warning
+    let mut lim: Vec<u64> = vec![];
+    for d in -3i64..=3 {
+        lim.push((MAX as i64 + d) as u64);
+        lim.push(((96u64 << 30) as i64 + d) as u64);
+    }
+    lim.extend([u64::MAX, u64::MAX - 1, 1 << 63, MAX * 2, 0, 1]);
+    let acc = par_shards(lim.len(), |i, acc| {
+        acc.evaluations += 1;
+        acc.nontrivial += 1;
+        if let Err(e) = limit_case(lim[i]) {
+            acc.violation(format!("limit size={}", lim[i]), e, json!({"kind":"limit","size":lim[i]}));
+        }
+        acc.bump(if lim[i] <= MAX { "accepted" } else { "rejected" });
+        if lim[i] == MAX + 1 {
+            acc.sample(json!({"kind":"limit","size":lim[i]}));
+        }
+    });
+    acc.into_report(&mut rep, "hard_limit");
+    let acc = par_shards(8201 + 31 * 5, |i, acc| {
+        let size = if i <= 8200 {
+            i as u64
+        } else {
+            let j = i - 8201;
+            ((192u64 << (j / 5)) as i64 + (j % 5) as i64 - 2) as u64
+        };
+        acc.evaluations += 1;
+        acc.nontrivial += 1;
+        if let Err(e) = warn_case(size) {
+            acc.violation(format!("warn size={}", size), e, json!({"kind":"warn","size":size}));
+        }
+        acc.bump(if size < 4097 { "warns" } else { "no_warning" });
+    });
+    acc.into_report(&mut rep, "small_input_warning_every_size_to_8200_and_borders");
+
+    rep.set("exhaustive", true);
+    rep.set(
+        "rule",
+        "for every n in 0..=30 and delta in -2..=2 the total size 192*2^n+delta is reached exactly as hook(zero prefix) + W_k^m with every k in 0..=30, m in {31,32,33,64,65} (thorough: {1,2,31,32,33,63,64,65,66}), in the slice / iterator / byte forms, without and with the correct size hint; plus 'pieces, 7 real zero bytes, in-place zero skip, pieces' histories whose total lands on a border +-1; plus all sizes 0..=8200 and all borders for the warning; plus sizes around 96 GiB, 192 GiB and u64::MAX for the hard limit.  All cases are distinct by construction; non-trivial = the library is called and compared with the reference.",
+    );
+    rep.assume("sizes above a few MiB are reached through hook H1 (zero prefix / in-place zero skip), whose equivalence with really feeding zeros is checked exhaustively for N < 4096 (thorough: 65536), around every border up to 192*2^13 (thorough: 2^24 ~ 3 GiB) and inductively (step(hook(N),0) == hook(N+1)) around every border up to 192 GiB");
+    rep.assume("refmodel::ctph is ssdeep 2.14.1 (self-test)");
+    rep
+}
